@@ -95,20 +95,20 @@ Definition lines_bytes (ls : list rline) : text := concat (map (fun l => render_
 Lemma prg_lines infos : forall o term rest,
   Forall line_ok infos -> Forall (fun l => cp_alldone (rl_code l) = false) infos ->
   line_ok term -> cp_alldone (rl_code term) = true ->
-  process_response_go o 0 0 NUL [] (lines_bytes infos ++ (render_line term ++ CP_EOL) ++ rest) =
+  process_response_go o 0 0 NUL [] (lines_bytes infos ++ render_line term ++ CP_EOL ++ rest) =
   (put_term (add_line (fold_left add_line infos o) term) (rl_code term),
    CRet ((if cp_failure (rl_code term) then rl_code term else 0), rest)).
 Proof.
   induction infos as [|l infos IH]; intros o term rest HI HA HT AT.
-  - cbn [lines_bytes map concat app fold_left]. rewrite eol_is_crlf, <- app_assoc. cbn [app].
-    rewrite prg_line by (try lia; apply clean_no_lf, render_clean, HT). cbn [rev app].
+  - cbn [lines_bytes map concat app fold_left]. rewrite eol_is_crlf. cbn [app].
+    rewrite prg_line; [|apply clean_no_lf, render_clean, HT|lia]. cbn [rev app].
     rewrite (process_line_render o term HT), AT. reflexivity.
   - inversion HI as [|? ? HI1 HI2]; inversion HA as [|? ? HA1 HA2]; subst.
     unfold lines_bytes. cbn [map concat fold_left]. fold (lines_bytes infos).
     rewrite eol_is_crlf, <- !app_assoc. cbn [app].
-    rewrite prg_line by (try lia; apply clean_no_lf, render_clean, HI1). cbn [rev app].
-    rewrite (process_line_render o l HI1), HA1. rewrite <- eol_is_crlf.
-    rewrite <- (IH (add_line o l) term rest HI2 HA2 HT AT). rewrite <- !app_assoc. reflexivity.
+    rewrite prg_line; [|apply clean_no_lf, render_clean, HI1|lia]. cbn [rev app].
+    rewrite (process_line_render o l HI1), HA1.
+    specialize (IH (add_line o l) term rest HI2 HA2 HT AT). rewrite eol_is_crlf in IH. cbn [app] in IH. exact IH.
 Qed.
 
 Lemma split_exact_app p rest : split_exact (length p) (p ++ rest) = Some (p, rest).
@@ -130,12 +130,12 @@ Qed.
 Lemma conforming_cmd_reply r : conforming r -> Forall (fun l => rl_text l <> []) (rp_info r ++ [rp_term r]) ->
   rl_code (rp_term r) <> 1 -> cmd_reply r.
 Proof.
-  intros (HI & HT & TC) NE N1. apply Forall_app in NE as [NE1 NE2]. inversion NE2; subst. unfold cmd_reply, line_ok. repeat split; auto.
-  - rewrite Forall_forall in *. intros l I. destruct (HI l I) as [W C]. repeat split; auto. apply info_not_alldone, C.
-  - apply HT.
-  - apply HT.
-  - unfold cp_alldone, cp_success_lo, cp_failure_hi. destruct TC as [[TC|TC]|TC]; [congruence| |];
-      unfold cp_success_lo, cp_success_hi, cp_failure_lo, cp_failure_hi in TC; apply andb_true_iff; rewrite !Z.leb_le; lia.
+  intros (HI & HT & TC) NE N1. apply Forall_app in NE as [NE1 NE2]. inversion NE2 as [|? ? NT _]; subst.
+  unfold cmd_reply, line_ok. split; [|split; [split; [exact HT|exact NT]|]].
+  - rewrite Forall_forall in *. intros l I. destruct (HI l I) as [W C].
+    split; [split; [exact W|apply NE1, I]|apply info_not_alldone, C].
+  - unfold cp_alldone. unfold terminal_code, success_code, failure_code in TC. destruct TC as [[TC|TC]|TC]; [congruence| |];
+      unfold cp_success_lo, cp_success_hi, cp_failure_lo, cp_failure_hi in *; apply andb_true_iff; rewrite !Z.leb_le; lia.
 Qed.
 
 Definition after_reply (o : couts) (r : reply) : couts :=
@@ -150,9 +150,160 @@ Qed.
 
 Lemma request_reply o r rest : cmd_reply r -> request o (reply_stream r ++ rest) = (after_reply o r, CRet (reply_res r, rest)).
 Proof.
-  intros (HI & HT & AT). unfold request, process_response. rewrite reply_stream_bytes, <- !app_assoc.
-  rewrite prg_lines; auto.
-  - cbn [cbind]. unfold clift. rewrite expect_ok by apply prompt_no_nul. reflexivity.
-  - eapply Forall_impl; [|exact HI]. intros l [A _]. exact A.
-  - eapply Forall_impl; [|exact HI]. intros l [_ A]. exact A.
+  intros (HI & HT & AT).
+  assert (HI1 : Forall line_ok (rp_info r)) by (eapply Forall_impl; [|exact HI]; intros l [A _]; exact A).
+  assert (HI2 : Forall (fun l => cp_alldone (rl_code l) = false) (rp_info r)) by (eapply Forall_impl; [|exact HI]; intros l [_ A]; exact A).
+  unfold request, process_response. rewrite reply_stream_bytes, <- !app_assoc.
+  rewrite (prg_lines (rp_info r) o (rp_term r) (CP_PROMPT ++ rest) HI1 HI2 HT AT).
+  cbn [cbind]. unfold clift. rewrite expect_ok by apply prompt_no_nul. reflexivity.
+Qed.
+
+(* ------------------------------------------------------------------ output accounting *)
+Definition ev_diag (e : ev) : text := match e with EDiag t => t | EWarn _ => [] end.
+Definition diag_of (evs : list ev) : text := concat (map ev_diag evs).
+Definition out_of (o : couts) : text := concat (rev (o_out o)).
+Definition err_of (o : couts) : text := diag_of (rev (o_err o)).
+
+Lemma memz_existsb k l : memz k l = existsb (Z.eqb k) l.
+Proof. induction l as [|a l IH]; cbn [memz existsb]; [reflexivity|]. rewrite IH, Z.eqb_sym. reflexivity. Qed.
+
+Lemma add_line_out o l : out_of (add_line o l) = out_of o ++ shown cli_suppress cli_stderr false l.
+Proof.
+  unfold add_line, shown. rewrite <- !memz_existsb.
+  destruct (memz (rl_code l) cli_suppress); [rewrite app_nil_r; reflexivity|].
+  destruct (memz (rl_code l) cli_stderr); cbn [Bool.eqb]; unfold out_of; cbn [put_err put_out o_out rev].
+  - rewrite app_nil_r. reflexivity.
+  - rewrite concat_app. cbn [concat]. rewrite app_nil_r. reflexivity.
+Qed.
+
+Lemma add_line_err o l : err_of (add_line o l) = err_of o ++ shown cli_suppress cli_stderr true l.
+Proof.
+  unfold add_line, shown. rewrite <- !memz_existsb.
+  destruct (memz (rl_code l) cli_suppress); [rewrite app_nil_r; reflexivity|].
+  destruct (memz (rl_code l) cli_stderr); cbn [Bool.eqb]; unfold err_of, diag_of; cbn [put_err put_out o_err rev].
+  - rewrite map_app, concat_app. cbn [map concat ev_diag]. rewrite app_nil_r. reflexivity.
+  - rewrite app_nil_r. reflexivity.
+Qed.
+
+Lemma add_line_terms o l : o_terms (add_line o l) = o_terms o.
+Proof. unfold add_line. destruct (memz _ cli_suppress); [reflexivity|]. destruct (memz _ cli_stderr); reflexivity. Qed.
+
+Lemma add_lines_out ls : forall o, out_of (fold_left add_line ls o) = out_of o ++ concat (map (shown cli_suppress cli_stderr false) ls).
+Proof.
+  induction ls as [|l ls IH]; intros o; cbn [fold_left map concat]; [rewrite app_nil_r; reflexivity|].
+  rewrite IH, add_line_out, <- app_assoc. reflexivity.
+Qed.
+
+Lemma add_lines_err ls : forall o, err_of (fold_left add_line ls o) = err_of o ++ concat (map (shown cli_suppress cli_stderr true) ls).
+Proof.
+  induction ls as [|l ls IH]; intros o; cbn [fold_left map concat]; [rewrite app_nil_r; reflexivity|].
+  rewrite IH, add_line_err, <- app_assoc. reflexivity.
+Qed.
+
+Lemma add_lines_terms ls : forall o, o_terms (fold_left add_line ls o) = o_terms o.
+Proof. induction ls as [|l ls IH]; intros o; cbn [fold_left]; [reflexivity|]. rewrite IH, add_line_terms. reflexivity. Qed.
+
+Lemma after_reply_fold o r : after_reply o r = put_term (fold_left add_line (rp_info r ++ [rp_term r]) o) (rl_code (rp_term r)).
+Proof. unfold after_reply. rewrite fold_left_app. reflexivity. Qed.
+
+Definition term_code (r : reply) : Z := rl_code (rp_term r).
+
+Lemma after_replies rs : forall o,
+  out_of (fold_left after_reply rs o) = out_of o ++ spec_output cli_suppress cli_stderr false rs /\
+  err_of (fold_left after_reply rs o) = err_of o ++ spec_output cli_suppress cli_stderr true rs /\
+  o_terms (fold_left after_reply rs o) = rev (map term_code rs) ++ o_terms o.
+Proof.
+  unfold spec_output. induction rs as [|r rs IH]; intros o; cbn [fold_left map concat rev app].
+  - rewrite !app_nil_r. auto.
+  - destruct (IH (after_reply o r)) as (A & B & C). rewrite A, B, C, after_reply_fold.
+    unfold out_of at 1, err_of at 1. cbn [put_term o_out o_err o_terms].
+    fold (out_of (fold_left add_line (rp_info r ++ [rp_term r]) o)). fold (err_of (fold_left add_line (rp_info r ++ [rp_term r]) o)).
+    rewrite add_lines_out, add_lines_err, add_lines_terms, <- !app_assoc. cbn [app]. auto.
+Qed.
+
+(* ------------------------------------------------------------------ the requests of a session *)
+Lemma requests_replies pre : forall o main rest,
+  Forall cmd_reply pre -> Forall (fun r => cp_success (term_code r) = true) pre -> cmd_reply main ->
+  requests (length pre) o (concat (map reply_stream (pre ++ [main])) ++ rest) =
+  (fold_left after_reply (pre ++ [main]) o, CRet (reply_res main, rest)).
+Proof.
+  induction pre as [|r pre IH]; intros o main rest HP HS HM; cbn [length requests app map concat fold_left].
+  - rewrite app_nil_r. apply request_reply. exact HM.
+  - inversion HP as [|? ? HP1 HP2]; inversion HS as [|? ? HS1 HS2]; subst. rewrite <- app_assoc. rewrite request_reply by auto. cbn [cbind].
+    unfold reply_res at 1. fold (term_code r). rewrite (class_disjoint _ HS1). cbn [Z.eqb]. apply IH; auto.
+Qed.
+
+(* ------------------------------------------------------------------ the banner *)
+Lemma scan_token_all n : Forall (fun c => is_space c = false /\ c <> NUL) n -> scan_token n = n.
+Proof.
+  induction n as [|c n IH]; intros H; cbn [scan_token]; [reflexivity|].
+  inversion H as [|? ? [H1 _] H2]; subst. rewrite H1. f_equal. auto.
+Qed.
+
+Lemma nonspace_not_lf c : is_space c = false -> c <> LF.
+Proof. intros H E. subst. discriminate. Qed.
+
+Lemma sscanf_version version : wf_name version -> sscanf_s CP_VERSION (bs "001 "%string ++ version) = Some version.
+Proof.
+  intros [NE H]. destruct version as [|c v]; [congruence|].
+  inversion H as [|? ? [H1 _] H2]; subst.
+  change (sscanf_s CP_VERSION (bs "001 "%string ++ c :: v))
+    with (match scan_token (skip_ws (skip_ws (c :: v))) with [] => None | tok => Some tok end).
+  rewrite !skip_ws_nonspace by exact H1. rewrite scan_token_all by exact H. reflexivity.
+Qed.
+
+Lemma process_version_ok version rest : wf_name version ->
+  process_version o_empty ((bs "001 "%string ++ version ++ CP_EOL) ++ rest) =
+  ((if text_eqb version PACKAGE_VERSION then o_empty else put_err o_empty (EWarn version)), CRet rest).
+Proof.
+  intros W. unfold process_version, xreadstr.
+  replace ((bs "001 "%string ++ version ++ CP_EOL) ++ rest) with ((bs "001 "%string ++ version) ++ CR :: LF :: rest)
+    by (rewrite eol_is_crlf, <- !app_assoc; reflexivity).
+  destruct W as [NE H].
+  rewrite xreadstr_line; [|apply Forall_app; split; [repeat constructor; discriminate|]|lia].
+  2:{ eapply Forall_impl; [|exact H]. intros c [Hc _]. apply nonspace_not_lf, Hc. }
+  cbn [rev app].
+  rewrite cstr_no_nul.
+  2:{ apply no_nul_app; [unfold no_nul; cbv; intuition discriminate|]. unfold no_nul. intros I. rewrite Forall_forall in H. apply H in I. tauto. }
+  rewrite sscanf_version by (split; auto). reflexivity.
+Qed.
+
+Lemma quit_no_nul : no_nul CP_RSP_QUIT.
+Proof. unfold no_nul. cbv. intuition discriminate. Qed.
+
+Lemma expect_ok_end str : no_nul str -> expect str str = CRet [].
+Proof. intros H. rewrite <- (app_nil_r str) at 2. apply expect_ok. exact H. Qed.
+
+Lemma alldone_success k : cp_alldone k = true -> (cp_success k = true <-> success_code k).
+Proof.
+  unfold cp_alldone, cp_success, success_code, cp_success_lo, cp_success_hi, cp_failure_hi.
+  rewrite !andb_true_iff, !Z.leb_le. lia.
+Qed.
+
+(* ------------------------------------------------------------------ a whole conforming session *)
+Lemma cli_conforming version pre main :
+  wf_name version -> Forall cmd_reply pre -> Forall (fun r => cp_success (term_code r) = true) pre -> cmd_reply main ->
+  exists r, cli (length pre) (session_stream version (pre ++ [main])) = Ok r /\
+    c_fatal r = None /\
+    c_stdout r = spec_output cli_suppress cli_stderr false (pre ++ [main]) /\
+    diag_of (c_stderr r) = spec_output cli_suppress cli_stderr true (pre ++ [main]) /\
+    c_terms r = map term_code (pre ++ [main]) /\
+    (c_status r = 0 <-> success_code (term_code main)).
+Proof.
+  intros W HP HS HM. unfold cli, session_stream.
+  rewrite process_version_ok by exact W. cbn [cbind]. unfold clift.
+  rewrite expect_ok by apply prompt_no_nul. cbn [cbind].
+  rewrite requests_replies by auto. cbn [cbind].
+  rewrite expect_ok_end by apply quit_no_nul. cbn [cbind finish].
+  eexists. split; [reflexivity|]. cbn [c_fatal c_stdout c_stderr c_terms c_status]. rewrite !frev_rev.
+  set (o0 := if text_eqb version PACKAGE_VERSION then o_empty else put_err o_empty (EWarn version)).
+  destruct (after_replies (pre ++ [main]) o0) as (A & B & C).
+  assert (O0 : out_of o0 = [] /\ err_of o0 = [] /\ o_terms o0 = []).
+  { unfold o0. destruct (text_eqb version PACKAGE_VERSION); repeat split; reflexivity. }
+  destruct O0 as (O1 & O2 & O3).
+  split; [reflexivity|]. split; [fold (out_of (fold_left after_reply (pre ++ [main]) o0)); rewrite A, O1; reflexivity|].
+  split; [fold (err_of (fold_left after_reply (pre ++ [main]) o0)); rewrite B, O2; reflexivity|].
+  split; [rewrite C, O3, app_nil_r, rev_involutive; reflexivity|].
+  destruct HM as (_ & _ & AT). unfold reply_res. fold (term_code main) in *.
+  rewrite (exit_status_zero _ AT). apply alldone_success. exact AT.
 Qed.
